@@ -13,7 +13,9 @@ values, PUSH of a ticket type, ill-typed operands)."""
 
 TICKETERS = ['KT1BEqzn5Wx8uJrZNvuS9DVHmLvG9td3fDLi', 'KT1VG2WtYdSWz5E7chTeAdDPZNy2MpP8pTfL']
 AMOUNTS = [0, 1, 1, 2, 2, 3, 3, 5, 2 ** 64, 10 ** 30]
-CONTENT_TYPES = [('nat',), ('string',), ('unit',), ('pair', ('nat',), ('string',))]
+CONTENT_TYPES = [('nat',), ('string',), ('unit',), ('pair', ('nat',), ('string',)),
+                 # optional contents whose payload has a value Python treats as false: `Some ""` / `Some False` are not `None`
+                 ('option', ('string',)), ('option', ('bool',)), ('pair', ('nat',), ('option', ('string',)))]
 
 
 # ---------------------------------------------------------------------------------------------- printers
@@ -202,6 +204,10 @@ def rand_content(rng, t):
         return ('str', rng.choice(['a', 'b', '', 'ab']))
     if t == ('unit',):
         return ('unit',)
+    if t == ('bool',):
+        return ('bool', rng.random() < 0.4)
+    if t[0] == 'option':
+        return ('none', t[1]) if rng.random() < 0.45 else ('some', rand_content(rng, t[1]))
     return ('pair', rand_content(rng, t[1]), rand_content(rng, t[2]))
 
 
